@@ -34,7 +34,7 @@ ASSUMPTIONS = [
     "exceptions raised inside datagram_received reach the event loop's exception handler, as with asyncio's selector "
     "datagram transport (reproduced by the simulated transport: delivery runs inside a loop callback)",
 ]
-PROBES = ["notification_over_1024_octets", "foreign_community_with_non_ascii_octets", "first_datagram_other_version", "two_listeners", "foreign_community", "truncated", "garbage", "wrong_outer_tag", "bitflip", "other_version", "dup_arrival", "lost",
+PROBES = ["payload_binding_named_like_a_header_binding", "notification_over_1024_octets", "foreign_community_with_non_ascii_octets", "first_datagram_other_version", "two_listeners", "foreign_community", "truncated", "garbage", "wrong_outer_tag", "bitflip", "other_version", "dup_arrival", "lost",
           "reordered", "bad_then_valid", "callback_raises", "slow_callback_overlap", "zero_payload", "eight_payload",
           "long_length_forms", "every_value_kind", "duplicate_payload_oid", "four_emitters", "ipv6_peers",
           "indefinite_no_eoc_reached"]
@@ -83,6 +83,12 @@ def plan_for(tier: str, seed: int, i: int) -> dict:
             # a notification larger than 1 kB (a log excerpt, a long description)
             big = bytes(xr.getrandbits(8) for _ in range(xr.choice([1100, 2000, 3000])))
             payload.append(((1, 3, 6, 1, 4, 1, 8072, 2, 3, 2, 9, n), ("str", big)))
+        yr = xr.random()
+        if yr < 0.04:
+            # a payload binding that is itself named like one of the two header bindings (what relays/proxies forward)
+            payload.append((SYSUPTIME, ("tt", xr.randrange(0, 2**32))))
+        elif yr < 0.08:
+            payload.append((TRAPOID, ("oid", (1, 3, 6, 1, 4, 1, 99, 1, xr.randrange(1, 9)))))
         d = {"n": n, "t": t, "emitter": rng.randrange(n_em), "listener": li, "cls": cls,
              "uptime": 100000 + n * 7919, "trap_oid": (1, 3, 6, 1, 4, 1, 8072, 2, 3, 0, 1 + n % 5),
              "payload": payload, "rid": rng.choice([0, 1, 2**31 - 1, -(2**31), rng.randrange(-2**31, 2**31)]),
@@ -342,6 +348,8 @@ def execute(plan: dict) -> dict:
                                                      for x in arr_cls[:k]) for k, c in enumerate(arr_cls))
     kinds_seen = set(v[0] for r in records if r["cls"] == "valid" for _, v in r["vbs"][2:])
     probes = {
+        "payload_binding_named_like_a_header_binding": int(any(
+            r["cls"] == "valid" and any(tuple(o) in (SYSUPTIME, TRAPOID) for o, _ in r["vbs"][2:]) for r in arrivals)),
         "notification_over_1024_octets": int(any(a["cls"] == "valid" and len(a["raw"]) > 1024 for a in arrivals)),
         "foreign_community_with_non_ascii_octets": int(any(d["cls"] == "foreign" and d["param"] % 9 in (5, 6, 7) for d in plan["datagrams"])),
         "first_datagram_other_version": int(bool(arrivals) and arrivals[0]["cls"] == "version"),
